@@ -119,7 +119,7 @@ def judge(text, result):
     toks = decode(data)
     by_pos = {}
     for lx in lexemes:
-        by_pos[(lx[0], lx[1], lx[3])] = lx
+        # character and length in UTF-16 code units: the position encoding of LSP when nothing else is negotiated
         by_pos[(lx[0], lx[2], lx[4])] = lx
         if lx[5] == "comment" and "\n" in lx[6]:
             # one token per line of the comment is an accepted alternative
@@ -309,7 +309,7 @@ def run(tier, seed):
                 "didChange incl. two content changes) and with a planted invalid character in every 7th; result.data "
                 "decoded with the relative encoding and compared with an independent lexical classification; "
                 "distinct = distinct (atom set, document kind) whose answer decoded correctly",
-        "assumptions": ["length/character accepted in characters or UTF-16 code units; a form feed separates tokens but "
+        "assumptions": ["character and length are UTF-16 code units; a form feed separates tokens but "
                         "does not end a line (LSP lines end at LF, CRLF or CR)",
                         "legend entries allowed per class: identifier->variable; comment->comment; word keyword->"
                         "keyword|modifier|string; operators->operator|keyword; address->operator|variable"],
